@@ -276,6 +276,9 @@ func (s *Solver) Check(conds []*Term, wantModel bool, vars []*Term, ufApps []*Te
 	}
 	if pure {
 		s.send(sb.String() + "(check-sat-using qfbv)\n")
+	} else if tacticMode == "uf" {
+		pure = true
+		s.send(sb.String() + "(check-sat-using qfufbv)\n")
 	} else {
 		s.send(sb.String() + "(check-sat)\n")
 	}
